@@ -1,5 +1,6 @@
 import Driver.Util
 import Slock.Model.Value
+import Slock.Model.ValueExec
 /-! Driver command for M-VALUE:
   value <locked> <waited01> <lock|unlock> <updOrZero01> <fromAof01> <recover01> <frame hex>;<frame hex>;…
   The cell starts empty; the frames are applied in order through `Slock.Value.processFrame`; after a panic the
@@ -22,6 +23,18 @@ def runFrames (cx : Ctx) : Option Cell → List Bytes → List String
     | _, .ok cur' => showCell cur' :: runFrames cx cur' fs
     | _, .error _ => "panic" :: runFrames cx none fs
 
+/-- `valuedecode <frame hex> <extra hex>` → refused | err <big01> | panic | ok <cmd64 hex> <sub-frame hex or -> <big01>
+    (big = a buffer of ≥ 64 KiB was allocated before the announced length was checked) -/
+def showBig : Option Nat → String
+  | some n => if n ≥ 65536 then "1" else "0"
+  | none => "0"
+
+def showDecode : DecodeResult → String
+  | .refused => "refused"
+  | .panic _ => "panic"
+  | .err a => s!"err {showBig a}"
+  | .ok c sub a => s!"ok {showHex c} {match sub with | some x => showHex x.data | none => "-"} {showBig a}"
+
 def parse01 (s : String) : Option Bool :=
   if s == "0" then some false else if s == "1" then some true else none
 
@@ -35,6 +48,15 @@ def handleValue : List String → Option String
     let r ← parse01 rec
     let fs ← (frames.splitOn ";").mapM parseHex
     pure (";".intercalate (runFrames ⟨l, w, t, u, a, r⟩ none fs))
+  | ["valuedecode", frame, extra] => do
+    let f ← parseHex frame
+    let e ← parseHex extra
+    pure (showDecode (decodeFrame f e))
+  | ["valuedecode-e2e", frame, extra] => do
+    -- end to end through LockDB.Lock: only "does the server survive" is compared
+    let f ← parseHex frame
+    let e ← parseHex extra
+    pure (if (decodeFrame f e).isPanic then "panic" else "nopanic")
   | _ => none
 
 end Driver
